@@ -4,7 +4,7 @@
    [Shape h]: every per-histogram array is 2-D of shape (n_hist, n_bins) and there are n_bins+1 edges
    (the invariant of C10, established there for every reachable state). *)
 From Coq Require Import List ZArith QArith Qcanon Bool Arith.
-From SX Require Import Model.Histogram Lib.HistBase Proofs.C09_Count Proofs.C09_Scale Proofs.C09_Density.
+From SX Require Import Model.Histogram Lib.HistBase Proofs.C09_Count Proofs.C09_Scale Proofs.C09_Density Proofs.C09_Example.
 Import ListNotations.
 Local Open Scope nat_scope.
 
@@ -131,17 +131,11 @@ Print Assumptions C09_density.
 
 (* non-vacuity: edges 0,1,3; values 0,1,2.5,3,-0.5 with weights 1,0.5,2.5,7,9; scale by 2; value 0.5;
    make_density: contents 1/3,1/3 (integral 1/3*1 + 1/3*2 = 1), raw counts 2,3 *)
-Definition z2 (n : Z) (d : positive) : Qc := Q2Qc (n # d).
-Definition obs (r : result hist) : option (list (option Q) * list (option Q)) :=
-  match r with
-  | Ok h => Some (map (option_map this) (cur (hH h)), map (option_map this) (cur (hRAW h)))
-  | Err _ => None
-  end.
 Theorem C09_example :
   obs (run qsqrt (fresh 2 [z2 0 1; z2 1 1; z2 3 1])
          [OFill (VList [Some (z2 0 1); Some (z2 1 1); Some (z2 5 2); Some (z2 3 1); Some (z2 (-1) 2)])
                 (WList [Some (z2 1 1); Some (z2 1 2); Some (z2 5 2); Some (z2 7 1); Some (z2 9 1)]);
           OScale (SScalar (Some (z2 2 1))); OFill (VScalar (Some (z2 1 2))) WNone; ODensity])
   = Some ([Some (1 # 3); Some (1 # 3)], [Some (2 # 1); Some (3 # 1)])%Q.
-Proof. exact (eq_refl _). Qed.
+Proof. exact c09_example. Qed.
 Print Assumptions C09_example.
